@@ -335,8 +335,9 @@ func (pb prefixDBBatch) GetByteSize() (int, error) {
 	return pb.source.GetByteSize()
 }
 
-// Returns a slice of the same length (big endian)
-// except incremented by one.
+// Returns the end bound of the key range that starts with bz: a copy incremented
+// by one (big endian) and cut after the incremented byte, so that no key outside
+// the range sorts below it ({0x01, 0xFF} gives {0x02}, not {0x02, 0x00}).
 // Returns nil on overflow (e.g. if bz bytes are all 0xFF)
 // CONTRACT: len(bz) > 0
 func cpIncr(bz []byte) (ret []byte) {
@@ -347,7 +348,7 @@ func cpIncr(bz []byte) (ret []byte) {
 	for i := len(bz) - 1; i >= 0; i-- {
 		if ret[i] < byte(0xFF) {
 			ret[i]++
-			return
+			return ret[:i+1]
 		}
 		ret[i] = byte(0x00)
 		if i == 0 {
